@@ -158,12 +158,15 @@ class Facts:
             a = strip_refs(x['args'][0])
             if a['k'] == 'Path' and a['path']['s'].startswith('Trait::') and tm.term(x['recv'], scope) == ('param', 'traits'):
                 return [('educed', a['path']['s'].split('::')[-1], pol)]
+        if x['k'] == 'MethodCall' and x['method'] in ('eq', 'ne') and len(x['args']) == 1:
+            return [('eq', tm.term(x['recv'], scope), tm.term(x['args'][0], scope), pol if x['method'] == 'eq' else not pol)]
         if x['k'] == 'MethodCall' and x['method'] in ('contains_key',) and len(x['args']) == 1:
             return [('haskey', tm.term(x['recv'], scope), tm.term(x['args'][0], scope), pol)]
         if x['k'] == 'Binary' and x['op'] in ('==', '!='):
             l, r = x['l_'], x['r_']
             if l['k'] == 'MethodCall' and l['method'] == 'len' and r['k'] == 'Lit' and r['lit']['k'] == 'Int':
                 return [('len', tm.term(l['recv'], scope), int(r['lit']['digits']), pol if x['op'] == '==' else not pol)]
+            return [('eq', tm.term(l, scope), tm.term(r, scope), pol if x['op'] == '==' else not pol)]
         if x['k'] == 'Path' and len(x['path']['segs']) == 1:
             d = scope.lookup(x['path']['s'])
             if d is not None and d.kind == 'let' and d.init is not None and not d.assigns and not d.ppath and depth < 6:
